@@ -1,6 +1,9 @@
 //! Provides query of transactions / balances on the processed [Ledger] instance.
 
 #[cfg(okane_verif)]
+#[allow(unused_imports)]
+use crate::verif::chrono;
+#[cfg(okane_verif)]
 use crate::verif::std;
 use std::{borrow::Cow, collections::HashSet};
 
